@@ -125,11 +125,14 @@ PROPS = {
                "Each line carries sxd-document's own DOM. non-trivial = extraction returned Ok"),
     "C12": cfg(40, 1500, ["C12."],
                "hook level: with_intermediate_poses on random land/steps/park with step sizes {0.01,0.02,0.05,0.5} m and {1,3,28} deg, "
-               "compared exactly with the model. API level: Cartesian::plan on robots with shape in three obstacle layouts (free, an "
+               "compared exactly with the model. API level: Cartesian::plan on robots with shape in four obstacle layouts (free, an "
                "object next to the stroke, a thin plate across it) x strokes of 1-3 steps and 3-25 cm x cost limits {3,6,17} deg x "
                "recursion depths {0,2,6,8} x include_linear_interpolation on/off x rayon pools 1,2,4,16; per returned waypoint the same "
                "robot's collides() and compliant(); every second problem re-planned under pools 1,3,16. The Cartesian part of each "
-               "returned plan is recomputed by the model from the landing solution. non-trivial = a plan was returned"),
+               "returned plan is recomputed by the model from the landing solution. Fourth layout: a cube where the elbow of the START branch "
+               "passes mid-stroke (that branch fails its final collision check, another one has to be found); after every failed plan "
+               "the harness looks for a landing branch that plans on its own and is reachable by the RRT (each twice) and re-plans three "
+               "times (predicate finds_existing_branch). non-trivial = a plan was returned"),
 }
 
 for _p, _m in [("C01", "C01c"), ("C02", "C02c"), ("C02", "C02d"), ("C02", "C02e"), ("C02", "Presets"), ("C06", "C02d"), ("C04", "C04b"), ("C06", "C06b"), ("C08", "C08b"), ("C15", "C15b"), ("C15", "C15c")]:
